@@ -337,6 +337,7 @@ Proof.
   - destruct (eval fl t cx a) as [va|] eqn:Ha; cbn [bind] in H; [|discriminate].
     destruct (eval fl t cx b) as [vb|] eqn:Hb; cbn [bind] in H; [|discriminate].
     destruct va as [l1|s|x|bb]; try discriminate. destruct vb as [l2|s|x|bb]; try discriminate.
+    rewrite Hdup in H. cbn [andb] in H.
     inversion H; subst l. apply merge_sortedZ; [eapply IHa; exact Ha|eapply IHb; exact Hb].
   - discriminate.
   - discriminate.
@@ -382,6 +383,8 @@ Proof.
   destruct (eval fl t cx a) as [va|]; cbn [bind] in *; [|discriminate].
   destruct (eval fl t cx b) as [vb|]; cbn [bind] in *; [|discriminate].
   destruct va as [la|s|x|bb]; try discriminate; destruct vb as [lb|s|x|bb]; try discriminate.
+  match type of H1 with (if ?c then _ else _) = _ => destruct c end; [discriminate|].
+  match type of H2 with (if ?c then _ else _) = _ => destruct c end; [discriminate|].
   inversion H1; inversion H2; subst. apply merge_comm_keys.
 Qed.
 
